@@ -143,6 +143,11 @@ def run_cases(ctx, mod, budget=None):
                                                   'where': '%s:%s' % (os.path.basename(where.filename), where.name) if where else None,
                                                   'tb': traceback.format_exc()[-1200:]})
                 ctx.count('cases_run')
+            elif type(e).__name__ in ('Malformed', 'NotGrammatical') and type(e).__module__.startswith('vf.ref'):
+                # the independent parser could not read octets that the workload expected to be well-formed (every place where it is
+                # applied to deliberately damaged input handles this exception itself): what PGPy wrote is not a packet sequence
+                ctx.fail('octets-unreadable-for-the-reference-parser', {'error': '%s: %s' % (type(e).__name__, str(e)[:200]), 'tb': traceback.format_exc()[-1200:]})
+                ctx.count('cases_run')
             else:
                 ctx.count('case_crashes')
                 ctx.flags.setdefault('crashes', [])
